@@ -142,8 +142,14 @@ theorem C01_run_content_equal (env : Env) (cfg : Config) (chunk : Nat) (hc : 0 <
 section Concrete
 variable (dumps : Json → EnvR Text) (loadsText : Text → EnvR Json) (loadsBytes : Bytes → EnvR Json)
 
-/-- the BOM table of `Codecs.cfg` is the one extracted from the repository -/
-theorem C01_codecs_cfg : Codecs.cfg = Generated.config := Codecs.cfg_eq
+/-- the BOM table, default indent and default encoding of `Codecs.cfg` are the ones extracted from
+the repository.  The read-ahead block size is deliberately not part of the tie: the property
+(C17) says results do not depend on it, the whole-run theorems take it as a separate argument,
+and `C17_tie_chunk` only asks that the repository's value is positive. -/
+theorem C01_codecs_cfg : Codecs.cfg.boms = Generated.config.boms ∧
+    Codecs.cfg.defaultIndent = Generated.config.defaultIndent ∧
+    Codecs.cfg.defaultEncoding = Generated.config.defaultEncoding ∧
+    Codecs.cfg.strictLength = Generated.config.strictLength := Codecs.cfg_eq
 
 /-- **Decoding undoes encoding** for each of the codecs (statement about the codec functions
 alone). -/
